@@ -45,7 +45,10 @@ Section Loops.
   Variable ops : rule_ops T S.
 
   (* Activation.assert_is_not_vector(activation_degree), activation.py:98-110, applied to the degree
-     just stored in rule i: ValueError when it has more than one element. *)
+     just stored in rule i: ValueError when it has more than one element.
+     Not modelled: a batch of ONE row (ndarray of shape (1,)) passes this check like a scalar, but
+     Proportional then fails in NumPy (`sum_degrees += activation_degree` on a 0-d array: ValueError
+     "non-broadcastable output operand"); size <= 1 here means a numpy.float64 scalar. *)
   Definition assert_is_not_vector (s : S) (i : nat) : result unit :=
     if (1 <? op_degree_size ops s i)%nat then Err EValue else Ok tt.
 
